@@ -14,23 +14,23 @@ _ENGINES = {
 
 # property -> dict(engine, level, quick_runs, thorough_s)
 PROPS = {
-    'C01': dict(engine='E1', level='exploration', quick_runs=6000, thorough_s=480),
-    'C02': dict(engine='E1', level='exploration', quick_runs=6000, thorough_s=480),
-    'C03': dict(engine='E1', level='exploration', quick_runs=4000, thorough_s=600,
-                extra=[('E2', 1000, 0.5)]),
-    'C04': dict(engine='E2', level='exploration', quick_runs=2500, thorough_s=600),
-    'C05': dict(engine='E2', level='exploration', quick_runs=2500, thorough_s=480),
-    'C06': dict(engine='E2', level='exploration', quick_runs=2500, thorough_s=480),
-    'C08': dict(engine='E2', level='exploration', quick_runs=2500, thorough_s=600),
-    'C09': dict(engine='E2', level='exploration', quick_runs=2500, thorough_s=480),
-    'C10': dict(engine='E2', level='exploration', quick_runs=2500, thorough_s=900),
-    'C11': dict(engine='E3', level='exploration', quick_runs=2000, thorough_s=600),
-    'C12': dict(engine='E3', level='exploration', quick_runs=2000, thorough_s=600),
-    'C13': dict(engine='E3', level='exploration', quick_runs=1500, thorough_s=720),
-    'C14': dict(engine='E3', level='exploration', quick_runs=1500, thorough_s=720),
-    'C17': dict(engine='E4', level='exploration', quick_runs=20000, thorough_s=300),
-    'C19': dict(engine='E5', level='exploration', quick_runs=40000, thorough_s=300),
-    'C20': dict(engine='E6', level='fault_enumeration', quick_runs=20000, thorough_s=300),
+    'C01': dict(engine='E1', level='exploration', quick_runs=30000, thorough_s=480),
+    'C02': dict(engine='E1', level='exploration', quick_runs=40000, thorough_s=480),
+    'C03': dict(engine='E1', level='exploration', quick_runs=16000, thorough_s=600,
+                extra=[('E2', 3000, 0.5)]),
+    'C04': dict(engine='E2', level='exploration', quick_runs=6000, thorough_s=600),
+    'C05': dict(engine='E2', level='exploration', quick_runs=12000, thorough_s=480),
+    'C06': dict(engine='E2', level='exploration', quick_runs=10000, thorough_s=480),
+    'C08': dict(engine='E2', level='exploration', quick_runs=7000, thorough_s=600),
+    'C09': dict(engine='E2', level='exploration', quick_runs=8000, thorough_s=480),
+    'C10': dict(engine='E2', level='exploration', quick_runs=5000, thorough_s=900),
+    'C11': dict(engine='E3', level='exploration', quick_runs=6000, thorough_s=600),
+    'C12': dict(engine='E3', level='exploration', quick_runs=6000, thorough_s=600),
+    'C13': dict(engine='E3', level='exploration', quick_runs=5000, thorough_s=720),
+    'C14': dict(engine='E3', level='exploration', quick_runs=5000, thorough_s=720),
+    'C17': dict(engine='E4', level='exploration', quick_runs=150000, thorough_s=300),
+    'C19': dict(engine='E5', level='exploration', quick_runs=300000, thorough_s=300),
+    'C20': dict(engine='E6', level='fault_enumeration', quick_runs=100000, thorough_s=300),
 }
 
 
